@@ -391,4 +391,220 @@ example : ValidTime { secs := 1700000000, nanos := 999999999 } := ⟨by decide, 
 example : ValidWrite (.deleteSecret (List.replicate 16 7)) := by simp [ValidWrite]
 example : ValidAead { nonce := List.replicate 12 1, ct := [1, 2, 3] } := ⟨Or.inl (by simp), by decide⟩
 
+
+/-! ### vault header and contents -/
+
+def ValidString (s : Bytes) : Prop := s.length ≤ cap ∧ utf8Ok s = true
+
+theorem readBool_enc (x : Bool) (rest : Bytes) : (readBool (encBool x ++ rest)).res = .ok x rest := by
+  unfold readBool encBool
+  cases x with
+  | true => simp only [if_true]; rw [bind_res_ok (readU8_enc 1 rest (by decide))]; simp [ret]
+  | false => simp only [Bool.false_eq_true, if_false]; rw [bind_res_ok (readU8_enc 0 rest (by decide))]; simp [ret]
+
+/-- an optional field: presence flag, then the value -/
+theorem readOpt_enc {d : Dec α} {enc : α → Bytes} (o : Option α) (rest : Bytes)
+    (hd : ∀ v, o = some v → (d (enc v ++ rest)).res = .ok v rest) {β : Type}
+    (k : Option α → Bytes → Out β) :
+    ((readBool (encOpt enc o ++ rest)).bind fun p r => (readOpt p d r).bind k).res = (k o rest).res := by
+  cases o with
+  | none =>
+    simp only [encOpt]
+    rw [bind_res_ok (readBool_enc false rest)]
+    simp [readOpt, ret, Out.bind]
+  | some v =>
+    simp only [encOpt, List.append_assoc]
+    rw [bind_res_ok (readBool_enc true _)]
+    simp only [readOpt, if_true]
+    rw [bind_res_ok (bind_res_ok (hd v rfl))]
+
+def ValidVaultMeta (m : VaultMeta) : Prop := ValidTime m.created ∧ ValidString m.description
+
+/-- the creation date and the description both survive (the decoder used to drop the date) -/
+theorem roundtrip_VaultMeta (m : VaultMeta) (rest : Bytes) (h : ValidVaultMeta m) :
+    (readVaultMeta (encVaultMeta m ++ rest)).res = .ok m rest := by
+  unfold readVaultMeta encVaultMeta
+  rw [List.append_assoc]
+  rw [bind_res_ok (roundtrip_DateTime m.created _ h.1)]
+  rw [bind_res_ok (readString_enc m.description rest h.2.1 h.2.2)]
+  rfl
+
+def ValidAuth (a : Auth) : Prop := (∀ s, a.salt = some s → ValidString s) ∧ (∀ s, a.seed = some s → s.length = 32)
+
+theorem roundtrip_Auth (a : Auth) (rest : Bytes) (h : ValidAuth a) :
+    (readAuth (encAuth a ++ rest)).res = .ok a rest := by
+  unfold readAuth encAuth
+  rw [List.append_assoc]
+  rw [readOpt_enc (d := readString) (enc := encString) a.salt _
+    (fun v hv => readString_enc v _ (h.1 v hv).1 (h.1 v hv).2)]
+  rw [readOpt_enc (d := readN 32) (enc := id) a.seed rest
+    (fun v hv => readN_append v rest 32 (h.2 v hv) (by decide))]
+  rfl
+
+theorem readId_enc (table : List (String × Nat)) (n : Nat) (rest : Bytes)
+    (hn : n < 256) (hm : table.any (fun e => e.2 == n) = true) :
+    (readId table (encU8 n ++ rest)).res = .ok n rest := by
+  unfold readId
+  rw [bind_res_ok (readU8_enc n rest hn)]
+  simp [hm, ret]
+
+def ValidSummary (s : Summary) : Prop :=
+  s.version < 65536 ∧ s.cipher < 256 ∧ Generated.cipherIds.any (fun e => e.2 == s.cipher) = true ∧
+  s.kdf < 256 ∧ Generated.kdfIds.any (fun e => e.2 == s.kdf) = true ∧
+  s.id.length = 16 ∧ ValidString s.name ∧ s.flags < 256 ^ 8 ∧ flagsOk s.flags = true
+
+theorem roundtrip_Summary (s : Summary) (rest : Bytes) (h : ValidSummary s) :
+    (readSummary (encSummary s ++ rest)).res = .ok s rest := by
+  obtain ⟨h1, h2, h3, h4, h5, h6, h7, h8, h9⟩ := h
+  unfold readSummary encSummary readU16 encU16 readU64 encU64
+  simp only [List.append_assoc]
+  rw [bind_res_ok (readNat_enc 2 s.version _ (by simpa using h1))]
+  rw [bind_res_ok (readId_enc _ s.cipher _ h2 h3)]
+  rw [bind_res_ok (readId_enc _ s.kdf _ h4 h5)]
+  rw [bind_res_ok (readN_append s.id _ 16 h6 (by decide))]
+  rw [bind_res_ok (readString_enc s.name _ h7.1 h7.2)]
+  rw [bind_res_ok (readNat_enc 8 s.flags rest h8)]
+  simp [h9, ret]
+
+def ValidShared : SharedAccess → Prop
+  | .write rs => rs.length < 65536 ∧ ∀ r ∈ rs, ValidString r
+  | .readOnly p => ValidAead p
+
+theorem roundtrip_SharedAccess (a : SharedAccess) (rest : Bytes) (h : ValidShared a) :
+    (readShared (encShared a ++ rest)).res = .ok a rest := by
+  unfold readShared
+  cases a with
+  | write rs =>
+    simp only [encShared, List.append_assoc, readU16, encU16]
+    rw [bind_res_ok (readU8_enc 1 _ (by decide))]
+    simp only [if_true]
+    rw [bind_res_ok (readNat_enc 2 rs.length _ (by simpa using h.1))]
+    rw [bind_res_ok (readMany_enc (enc := encString) rs rest
+      (fun x hx r => readString_enc x r (h.2 x hx).1 (h.2 x hx).2))]
+    rfl
+  | readOnly p =>
+    simp only [encShared, List.append_assoc]
+    rw [bind_res_ok (readU8_enc 2 _ (by decide))]
+    simp only [show ¬ (2 = 1) by decide, if_false, if_true]
+    rw [bind_res_ok (roundtrip_AeadPack p rest h)]
+    rfl
+
+def ValidHeader (h : Header) : Prop :=
+  ValidSummary h.summary ∧ (∀ p, h.metaP = some p → ValidAead p) ∧ ValidAuth h.auth ∧
+  ValidShared h.shared ∧ (encHeaderBody h).length < 256 ^ 4
+
+theorem roundtrip_Header (h : Header) (rest : Bytes) (hv : ValidHeader h) :
+    (readHeader (encHeader h ++ rest)).res = .ok h rest := by
+  obtain ⟨h1, h2, h3, h4, h5⟩ := hv
+  unfold readHeader encHeader encHeaderBody readU32 encU32
+  simp only [List.append_assoc]
+  have hid : readFixed 4 (vaultIdentity ++ (leBytes 4 (encHeaderBody h).length ++
+      (encSummary h.summary ++ (encOpt encAead h.metaP ++ (encAuth h.auth ++ (encShared h.shared ++ rest)))))) =
+      ⟨.ok vaultIdentity _, 0⟩ := readFixed_append vaultIdentity _ 4 rfl
+  unfold encHeaderBody at hid
+  simp only [List.append_assoc] at hid
+  rw [bind_res_ok (by rw [hid])]
+  simp only [if_true]
+  rw [bind_res_ok (readNat_enc 4 _ _ (by simpa [encHeaderBody, List.append_assoc] using h5))]
+  rw [bind_res_ok (roundtrip_Summary h.summary _ h1)]
+  rw [readOpt_enc (d := readAead) (enc := encAead) h.metaP _ (fun p hp => roundtrip_AeadPack p _ (h2 p hp))]
+  rw [bind_res_ok (roundtrip_Auth h.auth _ h3)]
+  rw [bind_res_ok (roundtrip_SharedAccess h.shared rest h4)]
+  rfl
+
+def ValidRow (r : Bytes × VaultCommit) : Prop :=
+  r.1.length = 16 ∧ ValidVaultCommit r.2 ∧ (r.1 ++ encVaultCommit r.2).length < 256 ^ 4
+
+theorem roundtrip_Row (r : Bytes × VaultCommit) (rest : Bytes) (h : ValidRow r) :
+    (readRow (encRow r ++ rest)).res = .ok r rest := by
+  unfold readRow encRow readU32 encU32
+  simp only [List.append_assoc]
+  rw [bind_res_ok (readNat_enc 4 _ _ h.2.2)]
+  rw [bind_res_ok (readN_append r.1 _ 16 h.1 (by decide))]
+  rw [bind_res_ok (roundtrip_VaultCommit r.2 _ h.2.1)]
+  rw [bind_res_ok (readNat_enc 4 _ rest h.2.2)]
+  rfl
+
+theorem encRow_ne_nil (r : Bytes × VaultCommit) : encRow r ≠ [] := by
+  unfold encRow encU32
+  intro e
+  have := congrArg List.length e
+  simp at this
+
+theorem encRow_length_pos (r : Bytes × VaultCommit) : 8 ≤ (encRow r).length := by
+  unfold encRow encU32
+  simp
+  omega
+
+theorem readRows_enc (rows : List (Bytes × VaultCommit)) (fuel : Nat)
+    (hv : ∀ r ∈ rows, ValidRow r) (hf : rows.length ≤ fuel) :
+    (readRows fuel (encContents rows)).res = .ok rows [] := by
+  induction rows generalizing fuel with
+  | nil => cases fuel <;> simp [readRows, encContents, ret]
+  | cons r t ih =>
+    obtain ⟨f, rfl⟩ : ∃ f, fuel = f + 1 := ⟨fuel - 1, by simp at hf; omega⟩
+    have hne : encContents (r :: t) ≠ [] := by
+      simp only [encContents, List.map_cons, List.flatten_cons]
+      intro e
+      exact encRow_ne_nil r (List.append_eq_nil_iff.mp e).1
+    unfold readRows
+    rw [if_neg hne]
+    have : encContents (r :: t) = encRow r ++ encContents t := by simp [encContents]
+    rw [this, bind_res_ok (roundtrip_Row r _ (hv r (by simp)))]
+    rw [bind_res_ok (ih f (fun x hx => hv x (by simp [hx])) (by simp at hf; omega))]
+    rfl
+
+theorem insertRow_fresh (rows : List (Bytes × VaultCommit)) (r : Bytes × VaultCommit)
+    (h : ∀ x ∈ rows, x.1 ≠ r.1) : insertRow rows r = rows ++ [r] := by
+  unfold insertRow
+  have : rows.any (fun x => x.1 == r.1) = false := by
+    rw [List.any_eq_false]
+    intro x hx
+    simpa using h x hx
+  simp [this]
+
+theorem foldl_insertRow_distinct (rows acc : List (Bytes × VaultCommit))
+    (hn : ((acc ++ rows).map (·.1)).Nodup) : rows.foldl insertRow acc = acc ++ rows := by
+  induction rows generalizing acc with
+  | nil => simp
+  | cons r t ih =>
+    simp only [List.foldl_cons]
+    have hfresh : ∀ x ∈ acc, x.1 ≠ r.1 := by
+      intro x hx e
+      simp only [List.map_append, List.map_cons] at hn
+      have := (List.nodup_append.mp hn).2.2 x.1 (List.mem_map_of_mem hx) r.1 (by simp)
+      exact this e
+    rw [insertRow_fresh acc r hfresh]
+    rw [ih (acc ++ [r]) (by simpa [List.append_assoc] using hn)]
+    simp
+
+/-- the rows of a vault (distinct secret ids, as the in-memory map guarantees) survive -/
+theorem roundtrip_Contents (rows : List (Bytes × VaultCommit))
+    (hv : ∀ r ∈ rows, ValidRow r) (hn : (rows.map (·.1)).Nodup) :
+    (readContents (encContents rows)).res = .ok rows [] := by
+  unfold readContents
+  have hlen : rows.length ≤ (encContents rows).length := by
+    clear hv hn
+    induction rows with
+    | nil => simp
+    | cons r t ih =>
+      have : encContents (r :: t) = encRow r ++ encContents t := by simp [encContents]
+      rw [this, List.length_append, List.length_cons]
+      have := encRow_length_pos r
+      omega
+  rw [bind_res_ok (readRows_enc rows _ hv hlen)]
+  simp only [ret]
+  rw [foldl_insertRow_distinct rows [] (by simpa using hn)]
+  simp
+
+/-- C14 for the vault file: header and every row survive (a vault is decoded from a complete
+buffer, so there are no trailing bytes). -/
+theorem roundtrip_Vault (v : VaultFile) (hh : ValidHeader v.header)
+    (hv : ∀ r ∈ v.rows, ValidRow r) (hn : (v.rows.map (·.1)).Nodup) :
+    (readVault (encVault v)).res = .ok v [] := by
+  unfold readVault encVault
+  rw [bind_res_ok (roundtrip_Header v.header _ hh)]
+  rw [bind_res_ok (roundtrip_Contents v.rows hv hn)]
+  rfl
+
 end Sos.Props.C14
